@@ -18,6 +18,41 @@ CHECKS = {
         "Every odd-length list up to the bound over a 4-value alphabet under both same-change settings (exhaustive) plus seeded random lists up to 41 terms is resolved by the real trivial_merge/resolve_trivial and compared with an independent counting reference; add/remove permutations must not change the answer.",
         "Reference is the counting definition cited in the property's quantifier; for >=3 surviving values it leaves the conflict unresolved (see DESIGN C02).",
     ),
+    "C03": (
+        "runtime monitor: partition/alternation/equality oracle over generated diffs, repeat-run and second-process determinism",
+        "Runs the real ContentDiff (all tokenizers incl. refined chains and seeded random tokenizers, three comparators) on generated 1..5-input cases and checks that hunks partition every input contiguously, matching hunks are equal under the comparator, no hunk is empty on all sides, kinds alternate, hunks()==hunk_ranges(), and that rebuilding the diff (fresh RandomState each time, plus a second process) yields identical hunks.",
+        "Whitespace normalisation reference is the harness' own; determinism is observed over 4 in-process rebuilds and one extra process per case prefix.",
+    ),
+    "C04": (
+        "runtime differential monitor: whole-file cancellation law + independent per-hunk reference merge",
+        "Real files::merge_hunks/merge/try_merge on generated 3/5/7-term merges (edits of a common base, planted identical terms, empty/binary, LF/CRLF) under both hunk levels and same-change settings; oracle: whole-file counting law, resolved-or-same-arity shape, agreement of the three entry points, and equality with a reference that re-diffs by line/word and applies the counting rule per hunk.",
+        "Trusts ContentDiff hunk boundaries (monitored separately by C03) and the counting reference of C02.",
+    ),
+    "C05": (
+        "runtime monitor: parse(materialize(conflict)) == merge hunks over generated conflicts, all marker styles",
+        "Materializes generated 2..4-sided conflicts (marker look-alikes up to 20 chars, CRLF, stray CR, missing final newline, empty sides, labels) with every marker style and with the marker length chosen as checkout does or forced longer, parses the bytes back and requires exactly the hunks files::merge_hunks produced; writer and bytes forms must agree.",
+        "Exact equality was probed silent on 390k conflicts before being adopted; labels contain no newline (as produced by jj).",
+    ),
+    "C30": (
+        "runtime monitor: visit() soundness vs matches() over random matcher trees and path universes",
+        "Builds random trees of Files/Prefix/Globs/Everything/Nothing under Union/Intersection/Difference (explicit combinators and via FilesetExpression::to_matcher), and for every matching universe path checks every ancestor directory's visit(): never Nothing, Specific lists the next component in the right set, AllRecursively implies every universe path below matches; matches() is also compared with a reference evaluator.",
+        "Universe is finite (random + perturbations of paths named by the matcher); globs restricted to the forms of the reference matcher.",
+    ),
+    "C31": (
+        "runtime differential monitor: reference fileset evaluator vs parsed expression",
+        "Random fileset ASTs over all pattern kinds and operators are rendered to text (full or minimal parentheses), parsed by the real fileset::parse from a random cwd, compiled with to_matcher and compared path by path with a reference evaluator (exact, prefix, small glob matcher, ASCII case folding).",
+        "Reference glob semantics are byte-wise (? and [set] consume one byte) like the regex jj compiles globs to; glob forms restricted to * ? [set] {a,b} and whole-component **.",
+    ),
+    "C32": (
+        "runtime differential monitor: lexical path reference vs RepoPath conversions, round trips and confinement",
+        "Random cwd/base/input triples (., .., doubled separators, unicode, absolute, outside the workspace) go through parse_fs_path/from_relative_path/to_fs_path/format+parse_file_path; a string-level lexical reference decides accept/reject and value; results never contain empty/./.. components, to_fs_path stays under base and round-trips.",
+        "Symlinks are out of scope (conversion is lexical by design).",
+    ),
+    "C33": (
+        "runtime monitor: bijection oracle export->parse and parse->export over random names",
+        "Random bookmark/tag symbols (valid remote names per validate_remote_name) are exported with the real to_git_ref_name and parsed back with parse_git_ref, random git-valid ref names are parsed and exported again; both round trips must be identities and no two symbols may share a ref.",
+        "Import direction restricted to ref names git/gix accept (gix::validate); uses the cfg-guarded re-export of the private functions.",
+    ),
 }
 
 LEVEL = {"C15": "fault_enumeration"}
